@@ -63,6 +63,7 @@ LEMMAS = {
     "L11-enum": "a dict with exactly n items, n of whose items are pairwise distinct keys k_1..k_n, is the dict {k_1: d[k_1], .., k_n: d[k_n]} (a finite set of cardinality n that contains n distinct elements has no others)",
     "L12-count": "if every stored coefficient of d equals c then the boolean value of d is c times the number of its monomials that evaluate to 1, a natural number <= the number of terms",
     "L13-origin": "at the all-zero boolean assignment (all spins +1) a monomial is 1 if its key is empty and 0 otherwise (spin: always 1), so the boolean value of a model there is its constant term",
+    "intp-closure": "the integers contain 0, 1, -1, 2 and every cast of an integer, are closed under + - * unary minus and if-then-else, and an integer real has an integer witness: the only facts about the abstract integrality predicate intp",
     "set-facts": "memset of empty/unit/concat; members(sorted(set k)) = members(k); members(ssq k) subset members(k); |S + {i}| = |S| + [i not in S]",
     "sq-shape": "sq(k) is duplicate-free, sorted, idempotent, no longer than k, members(sq k) subset members(k), identity on length <= 1",
 }
@@ -116,6 +117,7 @@ class Facts:
     def intp(self, e):
         if not getattr(self, "intp_active", False):
             self.intp_active = True
+            self.used.add("intp-closure")
             for c in (0, 1, -1, 2):
                 self._intp_term(z3.RealVal(c), 0)      # x == 0 or x == 1  gives intp(x) by congruence
         return self._intp_term(e, 0)
